@@ -720,4 +720,171 @@ theorem safe_of_inv {T semCap : Nat} {s : State} (hT1 : 1 ≤ T) (hTc : T ≤ se
           simp only [cnt] at this; omega
       exact ⟨0, by simp [step, h.np, hmain, execEv, hc]⟩
 
+theorem inv_step {T : Nat} {cap : Ch → Nat} {s s' : State} {i : Nat} (h : Inv T s) (hs : step cap s i = some s') : Inv T s' := by
+  obtain ⟨_, hc | hc⟩ := step_cases hs
+  · obtain ⟨p, m, hm, rfl⟩ := hc
+    exact inv_go h hm
+  · obtain ⟨e, M, G, s1, hf, hx, rfl⟩ := hc
+    exact inv_ev h hf hx
+
+theorem inv_reachable {T : Nat} {cap : Ch → Nat} {s0 s : State} (h0 : Inv T s0) (hr : Reachable cap s0 s) : Inv T s := by
+  induction hr with
+  | init => exact h0
+  | step i _ hs ih => exact inv_step ih hs
+
+/-! ## the initial state -/
+
+theorem spawns_counts (split : Nat → Bool) (n : Nat) :
+    ((mflat (spawns split n)).count (.send .sem) = (mflat (spawns split n)).count (.recv .sem) + nsplit split n) ∧
+    (∀ j, (mflat (spawns split n)).count (.send (.chunk j)) = if j < n then 1 else 0) ∧
+    (∀ j, (mflat (spawns split n)).count (.recv (.chunk j)) = 0) ∧
+    (∀ j, (mflat (spawns split n)).count (.send (.split j)) = (mflat (spawns split n)).count (.recv (.split j))) ∧
+    (∀ j, (mflat (spawns split n)).count (.recv (.split j)) = if j < n ∧ split j = true then 2 else 0) ∧
+    (∀ j, (mflat (spawns split n)).count (.close (.split j)) = if j < n ∧ split j = true then 1 else 0) ∧
+    ((mflat (spawns split n)).count (.close .sem) = 0) ∧
+    (∀ j, (mflat (spawns split n)).count (.close (.chunk j)) = 0) ∧
+    (∀ t, (mflat (spawns split n)).count (.send (.other t)) = 0 ∧ (mflat (spawns split n)).count (.recv (.other t)) = 0 ∧
+      (mflat (spawns split n)).count (.close (.other t)) = 0) := by
+  induction n with
+  | zero => simp [spawns, mflat, nsplit]
+  | succ n ih =>
+    obtain ⟨i1, i2, i3, i4, i5, i6, i7, i8, i9⟩ := ih
+    simp only [spawns, mflat_append, List.count_append, nsplit, chunkEvs]
+    cases hsp : split n
+    · simp only [if_false, Bool.false_eq_true, mflat, W, List.append_nil, count_cons_ev, List.count_nil]
+      refine ⟨by simp; omega, fun j => ?_, fun j => by simp [i3], fun j => by simp [i4], fun j => ?_, fun j => ?_, by simp [i7],
+        fun j => by simp [i8], fun t => by simp [i9 t]⟩
+      · rw [i2 j]; by_cases hj : j = n
+        · subst hj; simp
+        · have : (Ev.send (Ch.chunk j) = Ev.send (Ch.chunk n)) = False := by simp [hj]
+          simp only [this]; simp; (have h2 : (j < n + 1) ↔ (j < n) := by omega); simp [h2]
+      · rw [i5 j]; by_cases hj : j = n
+        · subst hj; simp [hsp]
+        · simp; (have h2 : (j < n + 1) ↔ (j < n) := by omega); simp [h2]
+      · rw [i6 j]; by_cases hj : j = n
+        · subst hj; simp [hsp]
+        · simp; (have h2 : (j < n + 1) ↔ (j < n) := by omega); simp [h2]
+    · simp only [if_true, mflat, W, Cj, List.append_nil, List.count_append, count_cons_ev, List.count_nil]
+      refine ⟨by simp; omega, fun j => ?_, fun j => by simp [i3], fun j => ?_, fun j => ?_, fun j => ?_, by simp [i7],
+        fun j => by simp [i8], fun t => by simp [i9 t]⟩
+      · rw [i2 j]; by_cases hj : j = n
+        · subst hj; simp
+        · have : (Ev.send (Ch.chunk j) = Ev.send (Ch.chunk n)) = False := by simp [hj]
+          simp only [this]; simp; (have h2 : (j < n + 1) ↔ (j < n) := by omega); simp [h2]
+      · rw [i4 j]; simp <;> omega
+      · rw [i5 j]; by_cases hj : j = n
+        · subst hj; simp [hsp]
+        · simp [hj]; (have h2 : (j < n + 1) ↔ (j < n) := by omega); simp [h2]
+      · rw [i6 j]; by_cases hj : j = n
+        · subst hj; simp [hsp]
+        · simp [hj]; (have h2 : (j < n + 1) ↔ (j < n) := by omega); simp [h2]
+
+theorem mflat_replicate (K : Nat) (e : Ev) : mflat (List.replicate K (.ev e)) = List.replicate K e := by
+  induction K with
+  | zero => simp [mflat]
+  | succ K ih => simp [List.replicate_succ, mflat, ih]
+
+theorem recvs_counts (n : Nat) :
+    (∀ c, (mflat (recvs n)).count (.send c) = 0) ∧ (∀ c, (mflat (recvs n)).count (.close c) = 0) ∧
+    ((mflat (recvs n)).count (.recv .sem) = 0) ∧ (∀ j, (mflat (recvs n)).count (.recv (.split j)) = 0) ∧
+    (∀ t, (mflat (recvs n)).count (.recv (.other t)) = 0) ∧
+    (∀ j, (mflat (recvs n)).count (.recv (.chunk j)) = if j < n then 1 else 0) := by
+  induction n with
+  | zero => simp [recvs, mflat]
+  | succ n ih =>
+    obtain ⟨i1, i2, i3, i4, i5, i6⟩ := ih
+    simp only [recvs, mflat, count_cons_ev]
+    refine ⟨fun c => by simp [i1], fun c => by simp [i2], by simp [i3], fun j => by simp [i4], fun t => by simp [i5], fun j => ?_⟩
+    rw [i6 j]; by_cases hj : j = n
+    · subst hj; simp
+    · (have h2 : (j < n + 1) ↔ (j < n) := by omega); simp [h2, hj]
+
+theorem spawns_mok (split : Nat → Bool) (n : Nat) : ∀ x ∈ spawns split n, MOk x ∧ rank x = 0 := by
+  induction n with
+  | zero => simp [spawns]
+  | succ n ih =>
+    intro x hx
+    simp only [spawns, List.mem_append, chunkEvs] at hx
+    rcases hx with hx | hx
+    · unfold MOk
+      split at hx <;> simp at hx
+      · rcases hx with rfl | rfl | rfl
+        · simp [rank]
+        · exact ⟨Or.inr (Or.inr (Or.inl ⟨n, rfl⟩)), by simp [rank]⟩
+        · exact ⟨Or.inr (Or.inr (Or.inr (Or.inl ⟨n, rfl⟩))), by simp [rank]⟩
+      · subst hx; exact ⟨Or.inr (Or.inl ⟨n, rfl⟩), by simp [rank]⟩
+    · exact ih x hx
+
+theorem recvs_mok (n : Nat) : ∀ x ∈ recvs n, MOk x ∧ rank x = 1 := by
+  induction n with
+  | zero => simp [recvs]
+  | succ n ih =>
+    intro x hx
+    simp only [recvs, List.mem_cons] at hx
+    rcases hx with rfl | hx
+    · exact ⟨Or.inr (Or.inr (Or.inr (Or.inr (Or.inl ⟨n, rfl⟩)))), by simp [rank]⟩
+    · exact ih x hx
+
+theorem pairwise_const {l : List MEv} {r : Nat} (h : ∀ x ∈ l, rank x = r) : l.Pairwise (fun a b => rank a ≤ rank b) := by
+  induction l with
+  | nil => exact List.Pairwise.nil
+  | cons a l ih =>
+    refine List.pairwise_cons.mpr ⟨fun b hb => ?_, ih (fun x hx => h x (by simp [hx]))⟩
+    rw [h a (by simp), h b (by simp [hb])]; exact Nat.le_refl _
+
+theorem init_inv (K nb : Nat) (split : Nat → Bool) :
+    Inv (K + nsplit split nb) (initState (normalMain K nb split)) := by
+  obtain ⟨a1, a2, a3, a4, a5, a6, a7, a8, a9⟩ := spawns_counts split nb
+  obtain ⟨b1, b2, b3, b4, b5, b6⟩ := recvs_counts nb
+  have hc : ∀ x, cnt x (initState (normalMain K nb split)) =
+      (List.replicate K (Ev.send Ch.sem)).count x + ((mflat (spawns split nb)).count x + ((mflat (recvs nb)).count x +
+        (if x = .close .sem then 1 else 0))) := by
+    intro x
+    simp only [cnt, initState, normalMain, mflat_append, mflat_replicate, List.count_append, gsum_nil, mflat, count_cons_ev,
+      List.count_nil]
+    omega
+  have hrep : ∀ x, (List.replicate K (Ev.send Ch.sem)).count x = if x = .send .sem then K else 0 := by
+    intro x; rw [List.count_replicate]; by_cases h : x = .send .sem
+    · subst h; simp
+    · have : ¬ (Ev.send Ch.sem = x) := fun h' => h h'.symm
+      simp [h, this]
+  refine ⟨rfl, ?_, by simp [initState], ?_, ?_, ?_, by simp [initState], by simp [initState], ?_, ?_⟩
+  · intro c
+    rw [hc, hc, hrep, hrep]
+    simp only [initState]
+    cases c with
+    | sem => simp [a1, b1, b3]; omega
+    | chunk j => simp [a2, a3, b1, b6]
+    | split j => simp [a4, b1, b4]
+    | other t => simp [(a9 t).1, (a9 t).2.1, b1, b5]
+  · intro x hx
+    simp only [initState, normalMain, List.mem_append, List.mem_replicate, List.mem_singleton] at hx
+    rcases hx with ⟨_, rfl⟩ | hx | hx | rfl
+    · exact Or.inl rfl
+    · exact (spawns_mok split nb x hx).1
+    · exact (recvs_mok nb x hx).1
+    · exact Or.inr (Or.inr (Or.inr (Or.inr (Or.inr rfl))))
+  · simp only [initState, normalMain]
+    refine List.pairwise_append.mpr ⟨pairwise_const (r := 0) (fun x hx => ?_), List.pairwise_append.mpr
+      ⟨pairwise_const (r := 0) (fun x hx => (spawns_mok split nb x hx).2), List.pairwise_append.mpr
+        ⟨pairwise_const (r := 1) (fun x hx => (recvs_mok nb x hx).2), by simp, fun a ha b hb => ?_⟩, fun a ha b hb => ?_⟩,
+      fun a ha b hb => ?_⟩
+    · simp only [List.mem_replicate] at hx; rw [hx.2]; simp [rank]
+    · simp at hb; subst hb; rw [(recvs_mok nb a ha).2]; simp [rank]
+    · rw [(spawns_mok split nb a ha).2]; exact Nat.zero_le _
+    · simp only [List.mem_replicate] at ha; rw [ha.2]; simp [rank]
+  · right
+    simp [initState, normalMain, List.getLast?_append]
+  · intro c
+    rw [hc, hrep]
+    cases c with
+    | sem => simp [a7, b2]
+    | chunk j => simp [a8, b2]
+    | split j => simp [a6, b2]; split <;> omega
+    | other t => simp [(a9 t).2.2, b2]
+  · intro j
+    rw [hc, hc, hrep, hrep]
+    simp [a3, a5, b4, b6]
+    constructor <;> split <;> omega
+
 end GV.MSMProto
